@@ -28,7 +28,10 @@ typedef int (*vrt_choose_fn)(int n); /* returns 0..n-1; 0 must mean "continue / 
 
 void vrt_reset(int mode, vrt_choose_fn choose);
 void vrt_config(int preempt_budget, int every_access, int spurious_cas_budget);
-void vrt_set_max_nesting(int n);  /* ISR: how many handlers may be active at once (default 2) */
+void vrt_set_max_nesting(int n);
+/* ISR: handlers with the same role (1..VRT_MAXCTX) are successive invocations of ONE interrupt source - same priority,
+ * never nested - and count as one logical context for happens-before (each is sequenced after the previous one). */
+void vrt_set_role(int ctx, int role);  /* ISR: how many handlers may be active at once (default 2) */
 
 /* THREADS: create a coroutine (runs inside vrt_run). ISR: register a handler of the given priority
  * (>= 1) that fires at most once, at a point the schedule picks.  Returns the context id (main = 0). */
